@@ -18,6 +18,7 @@ def specs(tier):
     js = [
         J('j-steady2:H1S1P1J1', 'steady', dict(n=2, journal='file'), dict(H=1, S=1, P=1, J=1)),
         J('j-steady3:H1S1P1', 'steady', dict(n=3, journal='file'), dict(H=1, S=1, P=1)),
+        J('j-steady2-compact:H1S1P1K1', 'steady', dict(n=2, journal='file'), dict(H=1, S=1, P=1, K=1), dict(k=2)),
         J('j-steady2:H2S1P2', 'steady', dict(n=2, journal='file'), dict(H=2, S=1, P=2)),
         J('jd-steady2:H1S1P1K1', 'steady', dict(n=2, journal='file+dump'), dict(H=1, S=1, P=1, K=1), dict(k=2)),
         J('jd-steady2:H2P2K1', 'steady', dict(n=2, journal='file+dump'), dict(H=2, P=2, K=1), dict(k=2)),
